@@ -31,6 +31,8 @@ class Ctx:
     def check(self, name, cond):
         cond = tobool(cond)
         s = z3.Solver(); s.set("timeout", 20000); s.add(*self.pc); s.add(z3.Not(cond)); r = s.check()
+        if r == z3.unknown:          # a loaded machine must not flip a verdict: one long retry (fresh solver, other seed)
+            s = z3.Solver(); s.set("timeout", 160000); s.set("random_seed", 7); s.add(*self.pc); s.add(z3.Not(cond)); r = s.check()
         self.obligations.append((name, "proved" if r == z3.unsat else ("FAILED" if r == z3.sat else "unknown"), s.model() if r == z3.sat else None))
 CTX = None
 
